@@ -67,7 +67,10 @@ func TestProp_Routing(t *testing.T) {
 			}
 		}
 		baseTLS := &tls.Config{Certificates: []tls.Certificate{{Certificate: [][]byte{baseRoot.Cert.Raw}, PrivateKey: baseRoot.Priv}}, NextProtos: baseProtos}
-		rig := vkit.NewRig(w, vkit.RigConfig{BaseTLS: baseTLS, Manual: true})
+		// not every base listener reports its closure with net.ErrClosed (a yamux
+		// session says "session shutdown"); the sub-listeners still have to end
+		ownCloseErr := rapid.IntRange(0, 2).Draw(t, "baseListenerReportsClosureWithItsOwnError") == 0
+		rig := vkit.NewRig(w, vkit.RigConfig{BaseTLS: baseTLS, Manual: true, OwnCloseError: ownCloseErr})
 		split, err := nodenet.NewSplitListener(rig.Ln)
 		if err != nil {
 			t.Fatalf("NewSplitListener: %v", err)
